@@ -320,6 +320,7 @@ def check_wait(eng, run):
     # the event loop is reported to the sender) - rule of C20
     from rules import c20
     c20.check_drain(eng, _As(run, "C04.drain"))
+    c20.check_wake(eng, _As(run, "C04.drain"))  # never hangs on a dead connection: the write flow control wakes / fails every suspended sender
 
 
 def run(eng, run):
